@@ -80,6 +80,20 @@ func runC12(r *Run, p *Prog) {
 			r.Unresolved("X1", "Call.ReplyError")
 			return
 		}
+		// analysed with the package's own helpers inlined (a shared name splitter); the write chain and the exported
+		// API stay calls
+		f = p.Inlined(f, func(callee *ssa.Function) bool {
+			if fnPkgPath(callee) != pkgVarlink || callee.Object() != nil && callee.Object().Exported() {
+				return true
+			}
+			for g := range cg.Reach([]*ssa.Function{callee}, false) {
+				if wfn[g] {
+					return true
+				}
+			}
+			return false
+		})
+		cg.AddView(f)
 		nameP := "param:" + f.Params[2].Name()
 		parP := "param:" + f.Params[3].Name()
 		R := "call:strings.LastIndex(" + nameP + `,const:".")`
